@@ -159,6 +159,8 @@ func (r *Run) builtin(b *ssa.Builtin, args []Value, c *ssa.CallCommon) Value {
 			r.zeroMem(a.P, a.Len*esz)
 		}
 		return Tuple{}
+	case "recover":
+		return Iface{}
 	case "print", "println":
 		return Tuple{}
 	case "ssa:wrapnilchk":
